@@ -1,4 +1,6 @@
 import GdVerif.Run.Valve
+import GdVerif.Run.Gs2
+import GdVerif.Run.Minecraft
 /-
   Model side of the real-socket checks (C12): the same query model, observed the way a loopback
   server observes the client (the datagrams it received), plus the number of blocking steps that ran
@@ -68,7 +70,34 @@ def entryRealTcp (args : List String) : String :=
     | none => "bad-case"
   | _ => "bad-case"
 
+/-- `realgs2 <v4|v6> <timeout_ms> <retries> <script>`: the GameSpy 2 query against the same kind of loopback server
+(bound: `C12_gs2_blocking_bound`) -/
+def entryRealGs2 (args : List String) : String :=
+  match args with
+  | _fam :: _ms :: r :: rest =>
+    match r.toNat?, parseNetArgs rest with
+    | some r, some na =>
+      let (res, w) := Gs2.query 0 r (Net.init na.script na.faults)
+      showRes showGs2Response res ++ " ;; " ++ sentHex w.log ++ " ;; B" ++ toString (blockedCount w.log)
+    | _, _ => "bad-case"
+  | _ => "bad-case"
+
+/-- `realjava <v4|v6> <timeout_ms> <retries>`: the Minecraft Java query against a TCP peer that accepts the
+connection and never writes (`C12_minecraft_java_silent_server`: `retries + 1` timed-out reads).  The requests are
+not compared: the handshake carries the server's ephemeral port. -/
+def entryRealJava (args : List String) : String :=
+  match args with
+  | [_fam, _ms, r] =>
+    match r.toNat? with
+    | some r =>
+      let (res, w) := Mc.queryJava McJson.ext 0 Mc.RequestSettings.default r
+        (Net.init [.opened (List.replicate (r + 1) .silence)] [])
+      showRes McDrv.showJavaResponse res ++ " ;; - ;; B" ++ toString (blockedCount w.log)
+    | none => "bad-case"
+  | _ => "bad-case"
+
 def realEntries : List (String × (List String → String)) :=
-  [("realudp", entryRealUdp), ("realecho", entryRealEcho), ("realrefused", entryRealRefused), ("realtcp", entryRealTcp)]
+  [("realudp", entryRealUdp), ("realecho", entryRealEcho), ("realrefused", entryRealRefused), ("realtcp", entryRealTcp),
+   ("realgs2", entryRealGs2), ("realjava", entryRealJava)]
 
 end Gd.Run
